@@ -24,7 +24,9 @@ RULE = ("move cases: every labelled tree on 2..6 atoms (7 in the thorough tier) 
         "coincident atoms on dyadic coordinates, asymmetric tables, negative lengths). A move case is counted non-trivial "
         "when it is distinct and at least one atom other than the moved one is repositioned (or an error branch is taken). "
         "displacement cases: 1, 2, 3+ neighbours, recorded draws of rand/choice/normal, generic and exactly collinear "
-        "(dyadic) geometries, negative sigma scale, atoms without neighbours.")
+        "(dyadic) geometries, negative sigma scale, atoms without neighbours; half of them with table lengths equal to the "
+        "geometry, half multiplied by log-uniform factors in [0.3, 3]; the same through move_mol_atom(displ=None) "
+        "(terminal atoms for two thirds, trees and cyclic graphs up to 12 atoms).")
 
 EXC = {IndexError: "EIndex", KeyError: "EKey", ValueError: "EValue"}
 CALL_LIMIT_S = 10      # a call normally takes well under a millisecond per atom
@@ -98,6 +100,8 @@ def gen_table(rs, n, bonds, pos, mode, scale, shuffle):
             val = dist
         elif mode == "perturbed":
             val = dist * rs.uniform(0.7, 1.3)
+        elif mode == "wide":
+            val = dist * float(np.exp(rs.uniform(np.log(0.3), np.log(3.0))))
         else:
             val = scale * rs.uniform(0.05, 0.3)
         length[(a, b)] = length[(b, a)] = val
@@ -125,7 +129,7 @@ def gen_displ(rs, pos, table, k, scale):
 def gen_move_case(rs, n, bonds, tree, gen):
     scale = 10 ** rs.uniform(-2, 2)
     geo = "walk" if rs.randint(0, 3) else "box"
-    mode = ["agree", "perturbed", "arbitrary"][rs.randint(0, 3)]
+    mode = ["agree", "perturbed", "arbitrary", "wide"][rs.randint(0, 4)]
     pos = gen_geometry(rs, n, bonds, geo, scale)
     table = gen_table(rs, n, bonds, pos, mode, scale, shuffle=bool(rs.randint(0, 2)))
     return {"kind": "move", "gen": gen, "tree": tree, "geo": geo, "mode": mode, "n": n,
@@ -264,9 +268,12 @@ class Draws:
             return val
 
         def normal(loc=0.0, scale=1.0, size=None):
+            if size is not None or np.ndim(scale) != 0:
+                self.calls.append("normal(size=%r)" % (size,))      # not a draw the model knows: K will disagree
+                return self.rs.normal(loc, scale, size)
             self.sigma = float(scale)
             self.calls.append("normal")
-            val = self.rs.normal(loc, scale, size)
+            val = self.rs.normal(loc, scale)                         # ValueError when scale < 0
             self.g = float(val)
             return val
         np.random.rand, np.random.choice, np.random.normal = rand, choice, normal
@@ -276,21 +283,48 @@ class Draws:
         np.random.rand, np.random.choice, np.random.normal = self.saved
 
 
-def impl_displ(pos, tj, k, sigma_scale, seed, force_u=None):
-    from gaddlemaps import find_atom_random_displ
+class Seeded:
+    """S runs the implementation on numpy's own global generator, seeded (no wrappers: the oracle must not depend on
+    which np.random functions the code calls); the previous global state is restored afterwards"""
+
+    def __init__(self, seed):
+        self.seed = seed
+
+    def __enter__(self):
+        self.state = np.random.get_state()
+        np.random.seed(self.seed)
+        return None
+
+    def __exit__(self, *a):
+        np.random.set_state(self.state)
+
+
+def impl_random(which, pos, tj, k, sigma_scale, seed, force_u=None, wrap=True):
+    """which = 'displ': find_atom_random_displ(pos, table, k, sigma_scale=..)
+       which = 'move' : move_mol_atom(pos, table, k, sigma_scale=..)   (displ=None: the displacement is drawn inside)
+    wrap=True records the draws (K); wrap=False only seeds the global generator (S).
+    returns (value or None, error class or None, Draws or None, input_unchanged)"""
+    import gaddlemaps
+    fn = gaddlemaps.find_atom_random_displ if which == "displ" else gaddlemaps.move_mol_atom
     a = np.array(pos, dtype=float).reshape(-1, 3)
     saved = a.copy()
     tb = table_dict(tj)
     out, err = None, None
-    with Draws(np.random.RandomState(seed), force_u) as dr:
+    with (Draws(np.random.RandomState(seed), force_u) if wrap or force_u is not None else Seeded(seed)) as dr:
         try:
-            with np.errstate(all="ignore"):
-                out = find_atom_random_displ(a, tb, k, sigma_scale=sigma_scale)
+            with np.errstate(all="ignore"), time_limit():
+                out = fn(a, tb, k, sigma_scale=sigma_scale)
+        except Hang:
+            err = "EFuel"
         except tuple(EXC) as e:
             for cls, name in EXC.items():
                 if isinstance(e, cls):
                     err = name
     return (None if out is None else np.array(out)), err, dr, bool((a == saved).all())
+
+
+def impl_displ(pos, tj, k, sigma_scale, seed, force_u=None, wrap=True):
+    return impl_random("displ", pos, tj, k, sigma_scale, seed, force_u, wrap)
 
 
 # ------------------------------------------------------------------ S oracles (property text)
@@ -356,7 +390,12 @@ def oracle_move(case):
     scale = max(np.abs(a).max(), np.abs(dd).max())
     if np.abs(out[k] - (a[k] + dd)).max() > 1e-12 * scale:
         bad.append("moved atom is not displaced by the requested vector (off by %.3g)" % np.abs(out[k] - (a[k] + dd)).max())
-    if case["tree"]:
+    return bad + bond_failures(case["tree"], a, out, tb, k)
+
+
+def bond_failures(is_tree, a, out, tb, k):
+    bad = []
+    if is_tree:
         wrong = [(i, j, b, float(np.linalg.norm(out[i] - out[j]))) for i in tb for j, b in tb[i] if not bond_ok(out, i, j, b)]
         if wrong:
             bad.append("%d bond(s) of the tree do not have the tabulated length, e.g. atoms %d-%d table %.12g got %.12g"
@@ -372,10 +411,32 @@ def oracle_move(case):
     return bad
 
 
+def perp_failures(pos, nb, k, v, slack=0.0):
+    """the perpendicularity clause for a displacement v of atom k whose table neighbours are nb (INPUT positions);
+    slack = absolute rounding allowance on the components of v (0 when v is the returned vector itself)"""
+    bad = []
+    nv = np.linalg.norm(v)
+
+    def perp(w, name):
+        nw = np.linalg.norm(w)
+        if abs(np.dot(v, w)) > REL * nv * nw + slack * nw:
+            bad.append("displacement not perpendicular to %s (cos = %.3g)" % (name, np.dot(v, w) / (nv * nw)))
+    if len(nb) == 1:
+        perp(pos[nb[0]] - pos[k], "the bond")
+    elif len(nb) == 2:
+        perp(pos[nb[0]] - pos[nb[1]], "the line through the two neighbours")
+    elif len(nb) >= 3:
+        perp(pos[nb[1]] - pos[nb[0]], "the plane of the first three neighbours (n1-n0)")
+        perp(pos[nb[2]] - pos[nb[0]], "the plane of the first three neighbours (n2-n0)")
+        perp(pos[nb[2]] - pos[nb[1]], "the plane of the first three neighbours (n2-n1)")
+    return bad
+
+
 def oracle_displ(case):
-    """generic coordinates, atom with at least one neighbour, sigma_scale >= 0"""
+    """generic coordinates, atom with at least one neighbour, sigma_scale >= 0; the table may agree or disagree with
+    the geometry (the clause is about the CURRENT positions of the neighbours)"""
     pos, tj, k = np.array(case["pos"], dtype=float), case["table"], case["k"]
-    out, err, dr, unchanged = impl_displ(pos, tj, k, case["sigma_scale"], case["seed"], case.get("force_u"))
+    out, err, dr, unchanged = impl_displ(pos, tj, k, case["sigma_scale"], case["seed"], case.get("force_u"), wrap=False)
     if err is not None:
         return ["raised %s on a well-formed input" % err]
     bad = []
@@ -384,29 +445,43 @@ def oracle_displ(case):
     if out.shape != (3,) or not np.isfinite(out).all():
         return bad + ["displacement not a finite 3-vector: %r" % (out,)]
     nb = [j for j, _ in table_dict(tj)[k]]
-    nv = np.linalg.norm(out)
+    return bad + perp_failures(pos, nb, k, out)
 
-    def perp(w, name):
-        if abs(np.dot(out, w)) > REL * nv * np.linalg.norm(w):
-            bad.append("displacement not perpendicular to %s (cos = %.3g)" % (name, np.dot(out, w) / (nv * np.linalg.norm(w))))
-    if len(nb) == 1:
-        perp(pos[nb[0]] - pos[k], "the bond")
-    elif len(nb) == 2:
-        perp(pos[nb[0]] - pos[nb[1]], "the line through the two neighbours")
-    else:
-        perp(pos[nb[1]] - pos[nb[0]], "the plane of the first three neighbours (n1-n0)")
-        perp(pos[nb[2]] - pos[nb[0]], "the plane of the first three neighbours (n2-n0)")
-        perp(pos[nb[2]] - pos[nb[1]], "the plane of the first three neighbours (n2-n1)")
-    return bad
+
+def oracle_move_random(case):
+    """move_mol_atom(pos, table, k, sigma_scale=s) with displ=None: the displacement is drawn inside, so new[k] - old[k]
+    must satisfy the perpendicularity clause, and the bonds must be restored as for a given displacement"""
+    a, tj, k = np.array(case["pos"], dtype=float), case["table"], case["k"]
+    out, err, dr, unchanged = impl_random("move", a, tj, k, case["sigma_scale"], case["seed"], wrap=False)
+    if err == "EFuel":
+        return ["no result within %d s (the propagation loop does not terminate)" % CALL_LIMIT_S]
+    if err is not None:
+        return ["raised %s on a well-formed input" % err]
+    bad = []
+    tb = table_dict(tj)
+    if not unchanged:
+        bad.append("input array modified")
+    if out.shape != a.shape:
+        return bad + ["output shape %s" % (out.shape,)]
+    if not np.isfinite(out).all():
+        return bad + ["non-finite output"]
+    nb = [j for j, _ in tb[k]]
+    # out[k] - a[k] carries the rounding of one addition and one subtraction at the magnitude of the coordinates
+    bad += perp_failures(a, nb, k, out[k] - a[k], slack=8 * np.finfo(float).eps * np.abs(a).max())
+    return bad + bond_failures(case["tree"], a, out, tb, k)
+
+
+ORACLES = {"move": (oracle_move, "move_mol_atom: "), "displ": (oracle_displ, "find_atom_random_displ: "),
+           "move_random": (oracle_move_random, "move_mol_atom(displ=None): ")}
 
 
 def run_oracle(ctx, case):
-    bad = oracle_move(case) if case["kind"] == "move" else oracle_displ(case)
+    fn, label = ORACLES[case["kind"]]
+    bad = fn(case)
     if bad:
         ctx.cov["S"]["failing_inputs"] = ctx.cov["S"].get("failing_inputs", 0) + 1
     if bad and len(ctx.violations) < MAX_REPLAYS:
-        ctx.violation(("move_mol_atom: " if case["kind"] == "move" else "find_atom_random_displ: ") + "; ".join(bad),
-                      case, key=case["kind"])
+        ctx.violation(label + "; ".join(bad), case, key=case["kind"])
     return bad
 
 
@@ -464,10 +539,11 @@ def displ_cases(ctx, rs, count):
         bonds = [(0, j) for j in range(1, n)] if star else molgen.random_tree(rs, n)
         scale = 10 ** rs.uniform(-2, 2)
         pos = gen_geometry(rs, n, bonds, "walk" if rs.randint(0, 2) else "box", scale)
-        table = gen_table(rs, n, bonds, pos, "agree", scale, shuffle=bool(rs.randint(0, 2)))
+        mode = "wide" if rs.randint(0, 2) else "agree"       # lengths x 0.3..3: the table disagrees with the geometry
+        table = gen_table(rs, n, bonds, pos, mode, scale, shuffle=bool(rs.randint(0, 2)))
         k = 0 if star and rs.randint(0, 3) else int(rs.randint(0, n))
         case = {"kind": "displ", "gen": kind, "n": n, "sigma_scale": float(rs.uniform(0, 2)), "seed": int(rs.randint(0, 2 ** 31)),
-                "k": k}
+                "k": k, "mode": mode}
         if kind in ("collinear", "parallel_u"):
             pos = rs.randint(-8, 9, size=(n, 3)).astype(float) / 4.0
             nb = [j for j, _ in table[k]]
@@ -496,6 +572,43 @@ def displ_cases(ctx, rs, count):
         case["pos"] = np.array(pos).tolist()
         case["table"] = tj
         yield case
+
+
+def move_random_cases(ctx, rs, count):
+    """move_mol_atom with displ=None (the displacement is drawn inside): terminal atoms for the larger share, tables that
+    agree or disagree (x 0.3..3) with the geometry, trees and cyclic graphs"""
+    for c in range(count):
+        n = int(rs.randint(2, 13))
+        shape = rs.randint(0, 4)
+        if shape == 0:
+            bonds = [(0, j) for j in range(1, n)]
+        elif shape == 1 and n >= 3:
+            bonds = molgen.random_graph(rs, n, int(rs.randint(1, 3)))
+        else:
+            bonds = molgen.random_tree(rs, n)
+        tree = len(bonds) == n - 1
+        scale = 10 ** rs.uniform(-2, 2)
+        pos = gen_geometry(rs, n, bonds, "walk" if rs.randint(0, 3) else "box", scale)
+        mode = "wide" if rs.randint(0, 2) else "agree"
+        table = gen_table(rs, n, bonds, pos, mode, scale, shuffle=bool(rs.randint(0, 2)))
+        terminal = [i for i in range(n) if len(table[i]) == 1]
+        k = int(terminal[rs.randint(0, len(terminal))]) if terminal and rs.randint(0, 3) else int(rs.randint(0, n))
+        yield {"kind": "move_random", "gen": "generic", "tree": tree, "n": n, "mode": mode, "k": k,
+               "sigma_scale": float(rs.uniform(0.05, 2)), "seed": int(rs.randint(0, 2 ** 31)),
+               "pos": np.array(pos).tolist(), "table": table_json(table, n)}
+
+
+# witness of seeded/C07-8: butane-like chain, force-field lengths 1.53 that are not the current distances
+DEMO_POS = [[0.13, -0.42, 0.77], [1.48, 0.31, 0.52], [2.35, 1.58, -0.11], [3.91, 1.22, 0.64]]
+DEMO_TABLE = [[[1, 1.53]], [[0, 1.53], [2, 1.53]], [[1, 1.53], [3, 1.53]], [[2, 1.53]]]
+
+
+def demo_cases():
+    for k in range(4):
+        for seed in (12345, 1, 2, 3):
+            for kind in ("displ", "move_random"):
+                yield {"kind": kind, "gen": "corpus", "tree": True, "n": 4, "mode": "disagree", "k": k, "sigma_scale": 0.7,
+                       "seed": seed, "pos": DEMO_POS, "table": DEMO_TABLE}
 
 
 CORPUS = [
@@ -528,7 +641,7 @@ def corpus_cases():
 def corpus(ctx):
     S = ctx.cov["S"]
     S["corpus"] = 0
-    for case in corpus_cases():
+    for case in itertools.chain(corpus_cases(), demo_cases()):
         S["corpus"] += 1
         run_oracle(ctx, case)
 
@@ -564,21 +677,27 @@ def term_move(case):
 
 
 def term_displ(case):
-    out, err, dr, unchanged = impl_displ(case["pos"], case["table"], case["k"], case["sigma_scale"], case["seed"],
-                                         case.get("force_u"))
+    which = "displ" if case["kind"] == "displ" else "move"
+    out, err, dr, unchanged = impl_random(which, case["pos"], case["table"], case["k"], case["sigma_scale"], case["seed"],
+                                          case.get("force_u"))
     u = dr.u if dr.u is not None else np.zeros(3)
     neg = dr.choice is not None and int(dr.choice) == -1
     g = dr.g if dr.g is not None else 0.0
-    t = "chk_displ %s %s %d%%nat %s %s %s %s %s %s" % (
-        coq_pos(case["pos"]), coq_table(case["table"]), case["k"], fl(case["sigma_scale"]), v3(u),
-        "true" if neg else "false", fl(g), "None" if dr.sigma is None else "(Some %s)" % fl(dr.sigma), coq_obs(out, err, one=True))
+    draws = "%s %s %s" % (v3(u), "true" if neg else "false", fl(g))
+    if which == "displ":
+        t = "chk_displ %s %s %d%%nat %s %s %s %s" % (
+            coq_pos(case["pos"]), coq_table(case["table"]), case["k"], fl(case["sigma_scale"]), draws,
+            "None" if dr.sigma is None else "(Some %s)" % fl(dr.sigma), coq_obs(out, err, one=True))
+    else:
+        t = "chk_move_random %s %s %d%%nat %s %s %s" % (
+            coq_pos(case["pos"]), coq_table(case["table"]), case["k"], fl(case["sigma_scale"]), draws, coq_obs(out, err))
     return t, out, err, dr, unchanged
 
 
 # ------------------------------------------------------------------ check entry points
 def well_formed(case):
     return case["gen"] in ("all_trees", "tree", "cyclic", "molecule", "corpus") or \
-        (case["kind"] == "displ" and case["gen"] == "generic")
+        (case["kind"] in ("displ", "move_random") and case["gen"] == "generic")
 
 
 def correspondence(ctx):
@@ -595,7 +714,9 @@ def correspondence(ctx):
         random_cases(ctx, rs, ctx.n(300, 4000)),
         molecule_cases(ctx, rs, ctx.n(12, 100)),
         (gen_malformed(rs) for _ in range(ctx.n(300, 3000))),
-        displ_cases(ctx, rs, ctx.n(600, 8000)))
+        displ_cases(ctx, rs, ctx.n(600, 8000)),
+        demo_cases(),
+        move_random_cases(ctx, rs, ctx.n(400, 5000)))
     cases, meta = [], []
     for case in stream:
         if case["kind"] == "move":
@@ -613,9 +734,10 @@ def correspondence(ctx):
         else:
             t, out, err, dr, unchanged = term_displ(case)
             nb = case["table"][case["k"]]
-            h("displ/%s/neighbours=%s" % (case["gen"], "none" if nb is None else min(len(nb), 3)))
-            h("displ/outcome=%s" % (err or ("nan" if not np.isfinite(out).all() else "ok")))
-            ctx.count(("displ", case["pos"], case["table"], case["k"], case["sigma_scale"], case["seed"]))
+            h("%s/%s/neighbours=%s" % (case["kind"], case["gen"], "none" if nb is None else min(len(nb), 3)))
+            h("%s/table=%s" % (case["kind"], case.get("mode")))
+            h("%s/outcome=%s" % (case["kind"], err or ("nan" if not np.isfinite(out).all() else "ok")))
+            ctx.count((case["kind"], case["pos"], case["table"], case["k"], case["sigma_scale"], case["seed"]))
         cases.append(t)
         meta.append(case)
         # S on the same cases (only where the property text speaks: well-formed inputs)
@@ -663,6 +785,12 @@ def oracle(ctx, scale):
         nd += 1
         ctx.count(("sdispl", case["pos"], case["table"], case["k"], case["seed"]))
         fails += bool(run_oracle(ctx, case))
+    nr = 0
+    for case in move_random_cases(ctx, rs, ctx.n(300, 4000) * scale):
+        nr += 1
+        ctx.count(("smove_random", case["pos"], case["table"], case["k"], case["seed"]))
+        fails += bool(run_oracle(ctx, case))
+    S["move_random_x%d" % scale] = nr
     if scale > 1:
         # enlarged search: the exhaustive tree family again with fresh geometry
         for case in exhaustive_trees(ctx, rs):
@@ -675,8 +803,8 @@ def oracle(ctx, scale):
 
 def replay(ctx, obj):
     r = obj["replay"]
-    if r.get("kind") in ("move", "displ"):
-        bad = oracle_move(r) if r["kind"] == "move" else oracle_displ(r)
+    if r.get("kind") in ORACLES:
+        bad = ORACLES[r["kind"]][0](r)
         print(bad)
         return not bad
     print("replay names a proof/correspondence, not an input:", str(r)[:600])
